@@ -39,6 +39,10 @@ ASSUME Rfc6979K(PadLeft(<<1>>, 32), Sha256(A("Satoshi Nakamoto"))) =
 ASSUME Nfkd(<<233>>) = <<101, 769>>                 \* e-acute -> e + combining acute
 ASSUME Nfkd(<<65313>>) = <<65>>                      \* fullwidth A -> A
 ASSUME Nfkd(<<8491>>) = <<65, 778>>                  \* Angstrom sign -> A + ring
+ASSUME NormForm("NFKD", <<233, 65313>>) = Nfkd(<<233, 65313>>) /\ NormForm("NFD", <<233, 65313>>) = <<101, 769, 65313>>
+ASSUME NormForm("NFC", <<101, 769>>) = <<233>> /\ NormForm("NFKC", <<65313, 778>>) = <<197>>
+ASSUME CpClass(769) = "mark" /\ CpClass(97) = "other" /\ CpClass(55296) = "surrogate" /\ CpClass(57344) = "private" /\ CpClass(888) = "unassigned"
+ASSUME Nfkd(<<180, 803>>) = <<32, 803, 769>>        \* compatibility expansion ends in a mark that is reordered with the next one
 ASSUME Nfkd(<<64257>>) = <<102, 105>>                \* fi ligature
 ASSUME StrToCps(CpsToStr(<<97, 233, 119964, 128512>>)) = <<97, 233, 119964, 128512>>
 ASSUME StrToUtf8(CpsToStr(<<233, 128512>>)) = <<195, 169, 240, 159, 152, 128>>
